@@ -182,6 +182,19 @@ def namesakes(f, b):
     return tuple(sorted(i for i, l in f.by_ident.items() if len(l) == 1 and i != me and l[0].name == b.name and l[0].self_ty == TF
                         and l[0].trait and l[0].trait.startswith("num_traits") and l[0].kind != "Closure"))
 
+def same_as_namesake(f, b, ib):
+    """the entry point does not call its inherent counterpart but computes the same thing: both read at operator level (their
+    private helpers and the crate's other namesakes in place) are one decision tree"""
+    from . import dectree as D
+    try:
+        t1 = H.tree_of(f, b, "op", inline_extra=namesakes(f, b), keep=(ib.ident(),))
+        t2 = H.tree_of(f, ib, "op")
+        if t1 == t2:
+            return True
+        return D.equivalent(D.expand_bool_leaves(t1), D.expand_bool_leaves(t2)) is None
+    except (vg.Unsupported, RuntimeError, RecursionError):
+        return False
+
 def check_delegation_subset(rep, f, names, rule="R16s"):
     """the num_traits Float / FloatCore / Signed entry points named in `names` return exactly their
     inherent counterpart (shared with C10's R16; used by the properties that own those functions)"""
@@ -198,12 +211,12 @@ def check_delegation_subset(rep, f, names, rule="R16s"):
             continue
         inst = "%s::%s" % (tr, b.name)
         try:
-            t = H.tree_of(f, b, "op", inline_private=False, inline_extra=namesakes(f, b))
+            t = H.tree_of(f, b, "op", inline_private=False, inline_extra=namesakes(f, b), keep=(inh,))
         except vg.Unsupported as u:
             rep.fail(rule, inst, "unsupported:" + inst, "cannot evaluate %s: %s" % (inst, u), where=H.where(b)); continue
         exp = mk("call", inh, *[P(i) for i in range(b.mir["arg_count"])])
         n += 1
-        rep.check(t[0] == "leaf" and t[1] is exp, rule, inst, "delegation:" + inst, "%s does not return exactly %s: got %s" % (inst, vg.show(exp)[:100], vg.show(t)[:200]),
+        rep.check((t[0] == "leaf" and t[1] is exp) or same_as_namesake(f, b, ib), rule, inst, "delegation:" + inst, "%s does not return exactly %s: got %s" % (inst, vg.show(exp)[:100], vg.show(t)[:200]),
                   where=H.where(b), detail=exp, nontrivial=False)
     return n
 
@@ -227,7 +240,8 @@ def check_delegation(rep, f):
         inst = "%s::%s" % (tr, name)
         try:
             # (a Float method may forward to its FloatCore twin or the reverse: the twin is read in place)
-            t = H.tree_of(f, b, "op", inline_extra=("<TwoFloat as core::default::Default>::default",) + namesakes(f, b))
+            # (the inherent namesake, which the method must return, stays a call also when no property names it)
+            t = H.tree_of(f, b, "op", inline_extra=("<TwoFloat as core::default::Default>::default",) + namesakes(f, b), keep=("TwoFloat::" + RENAME.get(name, name),))
         except vg.Unsupported as u:
             rep.fail("R16", inst, "unsupported:" + inst, "cannot evaluate %s: %s" % (inst, u), where=H.where(b)); continue
         if tr in ("Float", "FloatCore"):
@@ -262,7 +276,10 @@ def check_delegation(rep, f):
         n_checked += 1
         got = t[1] if t[0] == "leaf" else None
         # Default::default() inlined as zeros
-        rep.check(got is exp, "R16", inst, "delegation:" + inst,
+        same = got is exp
+        if not same and tag(exp) == "call" and f.get(exp[1]) is not None and all(x is P(i) for i, x in enumerate(exp[2:])):
+            same = same_as_namesake(f, b, f.get(exp[1]))
+        rep.check(same, "R16", inst, "delegation:" + inst,
                   "%s does not return exactly %s: got %s" % (inst, vg.show(exp)[:200], vg.show(t)[:300]), where=H.where(b), detail=exp, nontrivial=True)
     # Float / FloatCore siblings agree (X)
     for name, d in sorted(sib.items()):
